@@ -77,7 +77,7 @@ def units():
                      "invariants": "0 <= chan && chan <= %d && (g_ch < chan ==> %s) && (g_ch >= chan ==> (%s.value == vin_oldval && %s.position == vin_oldpos))"
                                    % (ch, post, PKg, PKg),
                      "decreases": "%d - chan" % ch}
-            U.append({"name": "%s.%s.ch%d" % (file[:-2], fn, ch), "props": ["C18", "C07", "C19"], "harness_text": h,
+            U.append({"name": "%s.%s.ch%d" % (file[:-2], fn, ch), "props": ["C18", "C07"], "harness_text": h,
                       "template": "units/gen_peak.py", "entry": "h_unit", "enforce": fn, "function": "%s:%s" % (file, fn),
                       "loops": {fn: [inner, outer]}, "timeout": 900, "kind": "enumerated(channels=%d)" % ch,
                       "tier": "quick" if ch == 2 else "thorough",
